@@ -174,7 +174,10 @@ def fnnls_kkt_cold_start(A, b):
     bound: all 3x3 systems with diag 2, off-diagonals {-1,0,1}, small rhs grid + 2400 (40000) seeded Gram+ridge systems
     of size 1..8, cond <= 1e6; compared with the 2^n support enumeration."""
     from autoarray.util.fnnls import fnnls_cholesky
-    s = fnnls_cholesky(A.copy(), b.copy())
+    A1, b1 = A.copy(), b.copy()
+    s = fnnls_cholesky(A1, b1)
+    if not (np.array_equal(A1, A) and np.array_equal(b1, b)):
+        return "fnnls_cholesky(cold) changed the matrix / right-hand side it was given (the caller's F+H and D)"
     return _optimum_message(A, b, s, "fnnls_cholesky(cold)")
 
 
@@ -185,8 +188,11 @@ def fnnls_kkt_warm_start(A, b):
     reconstruction_positive_only_from passes it; same bound as the cold-start check."""
     from autoarray.util.fnnls import fnnls_cholesky
     P_initial = np.linalg.solve(A, b) > 0
+    A1, b1 = A.copy(), b.copy()
     try:
-        s = fnnls_cholesky(A.copy(), b.copy(), P_initial=P_initial)
+        s = fnnls_cholesky(A1, b1, P_initial=P_initial)
+        if not (np.array_equal(A1, A) and np.array_equal(b1, b)):
+            return "fnnls_cholesky(warm) changed the matrix / right-hand side it was given (the caller's F+H and D)"
     except RuntimeError:
         return ("fnnls_cholesky(warm) raised RuntimeError (iteration limit) on an SPD system; P_initial=%r, optimum by "
                 "enumeration=%r" % (P_initial, _enum_oracle(A, b) if len(b) <= 8 else None))
@@ -198,9 +204,11 @@ def _positive_only(A, b, warm):
     from autoarray import exc
     from autoarray.inversion.inversion import inversion_util
     settings = aa.SettingsInversion(use_positive_only_solver=True, positive_only_uses_p_initial=warm)
+    A1, b1 = A.copy(), b.copy()
     try:
-        s = inversion_util.reconstruction_positive_only_from(data_vector=b.copy(), curvature_reg_matrix=A.copy(),
-                                                             settings=settings)
+        s = inversion_util.reconstruction_positive_only_from(data_vector=b1, curvature_reg_matrix=A1, settings=settings)
+        if not (np.array_equal(A1, A) and np.array_equal(b1, b)):
+            return "reconstruction_positive_only_from(positive_only_uses_p_initial=%s) changed the data vector / matrix it was given" % warm
     except exc.InversionException:
         return ("reconstruction_positive_only_from(positive_only_uses_p_initial=%s) raised InversionException on an SPD "
                 "system (the statement allows the exception only for the unconstrained solver); optimum by enumeration=%r"
